@@ -661,7 +661,7 @@ def _stop_coverage(c, check):
                             lines = set(range(node.lineno, node.end_lineno + 1))
                             st = stmts & lines
                             ms = missing & lines
-                            per[node.name] = {"statements": len(st), "missing_lines": sorted(ms)[:12],
+                            per[node.name] = {"statements": len(st), "missing_lines": sorted(ms)[:60],
                                               "percent": round(100.0 * (len(st) - len(ms)) / max(1, len(st)), 1)}
                     entry["anchored_functions"] = per
                 out[rel] = entry
